@@ -1,20 +1,33 @@
 (* Property C19: lattice geometry - index maps are bijections and couplings are enumerated exactly.
-   Only statements; every proof is `exact <lemma from Proofs/LatticeP.v>`.
+   Only statements; every proof is `exact <lemma from Proofs/LatticeP.v, LatticeP2.v or LatticeP3.v>`.
    All theorems hold for every dimension (1 + length (Lr lat)), all sizes, every unit cell size and
    every order array that lists distinct sites of the box (regular lattices: all of them; irregular
    lattices: a subset), finite and infinite MPS boundary conditions. *)
-From TenpyV Require Import Base.Prelude Model.Lattice Proofs.LatticeP.
+From TenpyV Require Import Base.Prelude Model.Lattice Model.LatticeVals Model.LatticeMulti.
+From TenpyV Require Import Proofs.LatticeP Proofs.LatticeP2 Proofs.LatticeP3.
 Open Scope Z_scope.
 
 (* get_order with priority=None (C-style and every combination of snake flags) enumerates every lattice
-   index of the box exactly once.
-   Not proved: the column permutation for priority != None and get_order_grouped (both are run against
-   the code in the correspondence / oracle streams only). *)
+   index of the box exactly once.  (priority != None: T19_get_order_priority_perm below.
+   Not proved: get_order_grouped, which is run against the code in the oracle stream only.) *)
 Theorem T19_get_order_perm : forall flags shape,
   NoDup (snake flags shape) /\
   (forall row, In row (snake flags shape) <-> in_box row shape) /\
   length (snake flags shape) = nprod shape.
 Proof. exact get_order_perm. Qed.
+
+(* get_order(shape, snake_winding, priority) with perm = argsort(priority) (any permutation of the
+   directions, the unit cell index included): `get_order` is the model function run against
+   Lattice.ordering in the correspondence stream "model-order"
+   (order = get_order(shape[perm], snake[perm], None)[:, inverse_permutation(perm)]).
+   It enumerates every lattice index of the box exactly once, for every shape, all snake flags and every
+   priority permutation. *)
+Theorem T19_get_order_priority_perm : forall shape flags perm,
+  Permutation perm (seq 0 (length shape)) ->
+  NoDup (get_order shape flags perm) /\
+  (forall row, In row (get_order shape flags perm) <-> in_box row shape) /\
+  length (get_order shape flags perm) = nprod shape.
+Proof. exact get_order_priority_perm. Qed.
 
 (* mps2lat_idx and lat2mps_idx are mutually inverse bijections between the MPS indices (all integers for
    infinite MPS, 0 <= i < N_sites for finite MPS) and the existing sites (for infinite MPS: x_0 any
@@ -25,6 +38,33 @@ Theorem T19_index_inverse : forall lat, wf lat ->
   (forall i, (if infinite lat then True else 0 <= i < nsites lat) -> exists s, mps2lat lat i = Some s) /\
   (forall s, site_exists lat s -> exists i, lat2mps lat s = Some i).
 Proof. exact index_inverse. Qed.
+
+(* mps2lat_values(A) for a 1D array A of length N_sites (Model/LatticeVals.v: the scatter assignment
+   _mps2lat_vals_idx[tuple(order.T)] = arange(N_sites) of the order setter followed by np.take) puts A[i]
+   at the lattice index mps2lat_idx(i), for every 0 <= i < N_sites; and every lattice index s that is a row
+   of the order holds A[lat2mps_idx(s)].  With T19_index_inverse: each A[i] lands at exactly one lattice
+   index.  Any dimension, any order of distinct sites, finite and infinite MPS.  (Lattice indices that are
+   no row of the order - IrregularLattice - are uninitialised memory in the code, None in the model.)
+   Not covered: arrays with several axes / axes != 0 (the code recurses over the axes; oracle stream only),
+   mps2lat_values_masked. *)
+Theorem T19_values_reshape : forall lat, wf lat -> forall (V : Type) (a : list V),
+  length a = length (lorder lat) ->
+  (forall i, 0 <= i < nsites lat -> exists s v,
+     mps2lat lat i = Some s /\ nth_error a (Z.to_nat i) = Some v /\ mps2lat_values lat a s = Some v) /\
+  (forall s, In s (lorder lat) -> exists i v,
+     0 <= i < nsites lat /\ lat2mps lat s = Some i /\ nth_error a (Z.to_nat i) = Some v /\
+     mps2lat_values lat a s = Some v).
+Proof. exact values_reshape. Qed.
+
+(* mps2lat_values(A, u=u) for A of length len(mps_idx_fix_u(u)): the k-th entry of A, which belongs to the
+   MPS site i = mps_idx_fix_u(u)[k], is put at the lattice index (x_0, ..., x_{d-1}) with
+   mps2lat_idx(i) = (x_0, ..., x_{d-1}, u). *)
+Theorem T19_values_reshape_fix_u : forall lat, wf lat -> forall (V : Type) u (a : list V),
+  length a = length (mps_fix_u lat u) ->
+  forall k i, nth_error (mps_fix_u lat u) k = Some i -> exists x0 xr v,
+    0 <= i < nsites lat /\ mps2lat lat i = Some (x0, xr, u) /\ nth_error a k = Some v /\
+    mps2lat_values_u lat u a x0 xr = Some v.
+Proof. exact values_reshape_u. Qed.
 
 (* possible_couplings(u1, u2, dx) returns exactly the pairs (i, j) of MPS indices of existing sites
    (x, u1), (y, u2) with y reached from x by dx under the boundary conditions (`coupled`: winding numbers
@@ -46,6 +86,24 @@ Theorem T19_couplings_shift_refuted :
     coupled lat u1 u2 dx0 dxr i j /\ coupling_pairs lat u1 u2 dx0 dxr = [].
 Proof. exact couplings_shift_refuted. Qed.
 
+(* possible_multi_couplings(ops), ops = [(dx_m, u_m)] (any number >= 1 of operators, any dimension): the
+   rows mps_ijkl (`multi_ijkl` = first components of the correspondence-checked model function
+   possible_multi_couplings) are exactly the lists [i_1; ...; i_n] of MPS indices for which an anchor cell b
+   (integer coordinates) exists such that, for every m, i_m is the existing site with unit cell index u_m
+   in the cell reached from b by dx_m under the boundary conditions (`op_at`: same `connected` as in
+   T19_couplings_exact: winding numbers, none across open boundaries, bc_shift), each such list exactly once;
+   for infinite MPS exactly the representative with 0 <= min(i_1..i_n) < N_sites of each translation class.
+   Regular and irregular lattices (restriction to existing sites).
+   Hypothesis on bc_shift: none together with an open x-direction (without it the code misses rows: known
+   finding F19.4, and for two operators T19_couplings_shift_refuted).
+   Not covered: the second component lat_indices (corner of the box, used for the strength array) is only
+   correspondence-checked. *)
+Theorem T19_multi_couplings_exact : forall lat, wf lat -> forall ops, ops_wf lat ops ->
+  (open0 lat = true -> Forall (fun s => s = 0) (shiftr lat)) ->
+  NoDup (multi_ijkl lat ops) /\
+  forall ijkl, In ijkl (multi_ijkl lat ops) <-> multi_coupled lat ops ijkl.
+Proof. exact multi_couplings_exact. Qed.
+
 (* ---- non-vacuity and documented examples ---- *)
 
 (* tests/test_lattice.py test_lattice_order: Square(4, 3, order='snake') *)
@@ -59,6 +117,10 @@ Example T19_example_priority :
   get_order [2; 3; 2] [true; false; false] [2; 1; 0]%nat =
   [[0;0;0]; [1;0;0]; [1;1;0]; [0;1;0]; [0;2;0]; [1;2;0]; [0;0;1]; [1;0;1]; [1;1;1]; [0;1;1]; [0;2;1]; [1;2;1]].
 Proof. vm_compute. reflexivity. Qed.
+
+(* the hypothesis of T19_get_order_priority_perm holds for that argsort *)
+Example T19_example_priority_hyp : Permutation [2; 1; 0]%nat (seq 0 (length [2; 3; 2])).
+Proof. cbn. apply Permutation_sym. apply (Permutation_rev [0; 1; 2]%nat). Qed.
 
 (* Honeycomb(2, 3, order='snake', bc='periodic', bc_MPS='infinite') of test_possible_couplings *)
 Definition ex_honey : lattice :=
@@ -81,6 +143,34 @@ Example T19_example_couplings :
   mps2lat ex_honey (-3) = Some (-1, [2], 0) /\ lat2mps ex_honey (2, [1], 1) = Some 16.
 Proof. vm_compute. repeat split. Qed.
 
+(* values on ex_honey: A = [100 .. 111]; the value of MPS site 7 = lattice index (1, 1, 1) and the
+   u = 1 part A' = A[mps_idx_fix_u(1)] = A[[3;4;5;6;7;8]] *)
+Example T19_example_values :
+  mps2lat ex_honey 7 = Some (1, [1], 1) /\
+  mps2lat_values ex_honey (map Z.of_nat (seq 100 12)) (1, [1], 1) = Some 107 /\
+  mps_fix_u ex_honey 1 = [3; 4; 5; 6; 7; 8] /\
+  mps2lat_values_u ex_honey 1 [103; 104; 105; 106; 107; 108] 1 [1] = Some 107 /\
+  values_flat ex_honey (map Z.of_nat (seq 100 12)) =
+    map Some [100; 103; 101; 104; 102; 105; 111; 108; 110; 107; 109; 106].
+Proof. vm_compute. repeat split. Qed.
+
+(* three-site couplings on ex_honey (infinite MPS, all directions periodic): the rows, and one of them
+   seen through the specification (anchor cell found by the theorem) *)
+Definition ex_ops : list op := [(0, [0], 0); (1, [0], 1); (-1, [1], 0)].
+
+Example T19_example_multi :
+  ops_wf ex_honey ex_ops /\
+  multi_ijkl ex_honey ex_ops =
+    [[11; 15; 1]; [10; 16; 2]; [9; 17; 0]; [12; 20; 10]; [13; 19; 9]; [14; 18; 11]] /\
+  multi_coupled ex_honey ex_ops [12; 20; 10].
+Proof.
+  assert (Hw : ops_wf ex_honey ex_ops).
+  { split; [discriminate|]. repeat constructor; cbn; lia. }
+  split; [exact Hw|]. split; [vm_compute; reflexivity|].
+  apply (proj2 (multi_couplings_exact ex_honey T19_example_wf ex_ops Hw (fun H => ltac:(discriminate H)))).
+  vm_compute. tauto.
+Qed.
+
 (* the IrregularLattice of tests/test_lattice.py test_IrregularLattice (Honeycomb 3x3, bc open/periodic,
    three sites removed, two added) with the hand-written expectations of that test *)
 Definition ex_irregular : lattice :=
@@ -95,6 +185,10 @@ Example T19_example_irregular :
 Proof. vm_compute. repeat split. Qed.
 
 Print Assumptions T19_get_order_perm.
+Print Assumptions T19_get_order_priority_perm.
 Print Assumptions T19_index_inverse.
+Print Assumptions T19_values_reshape.
+Print Assumptions T19_values_reshape_fix_u.
 Print Assumptions T19_couplings_exact.
 Print Assumptions T19_couplings_shift_refuted.
+Print Assumptions T19_multi_couplings_exact.
